@@ -25,6 +25,8 @@ Section Reach.
   Variable funcs : fsigs.
   Variable parens : range_table.
   Variable cparens : paren_table.
+  Variable fname : string.
+  Variable refs : string -> ty -> string -> range -> option (list string).
   Variable p : pos.
   (* a closing parenthesis is one byte (or missing) *)
   Hypothesis cparens_wf : forall r o c, lookup_parens cparens r = Some (o, c) -> re c <= rs c + 1.
@@ -296,12 +298,18 @@ Section Reach.
           * vok. apply ok_ret. apply attrs_to_cands_ok. cbn [fst snd]. unfold P, pb. lia.
     Qed.
 
-    Lemma ref_items_ok e : vres_ok (ref_items p e).
+    Lemma ref_cands_ok sc0 t0 prefix org flt : rs org <= PP <= re org -> Forall item_ok (ref_cands refs sc0 t0 prefix org flt).
+    Proof.
+      intros H. unfold ref_cands. destruct (refs sc0 t0 prefix org) as [labels|]; [|constructor; [exact H|constructor]].
+      apply Forall_forall. intros i Hi. apply in_map_iff in Hi as (l & <- & _). exact H.
+    Qed.
+
+    Lemma ref_items_ok sc0 t0 e : vres_ok (ref_items file fname refs p sc0 t0 e).
     Proof.
       destruct e as [|x]; cbn [ref_items].
-      - apply ok_ret. constructor; [unfold item_ok, P, pb; cbn; lia|constructor].
+      - apply ok_ret. apply ref_cands_ok. unfold empty_range_at, rs, re, P, pb; cbn. lia.
       - destruct (se_node x); try apply ok_nil; try apply ok_skip.
-        apply ok_ret. constructor; [|constructor]. unfold item_ok. cbn [vi_sb vi_eb].
+        apply ok_ret. apply ref_cands_ok.
         unfold edit_range, with_end, with_start, contains_pos, contains_offset, rs, re.
         destruct (Z.leb_spec (p_byte (r_start (se_rng x))) (p_byte p)); destruct (Z.ltb_spec (p_byte p) (p_byte (r_end (se_rng x)))); cbn [andb r_start r_end];
           repeat match goal with |- context [Z.ltb ?a ?b] => destruct (Z.ltb_spec a b) end; cbn [r_start r_end p_byte]; lia.
@@ -328,7 +336,7 @@ Section Reach.
       - inversion Hn; subst. apply Hrec. apply norm_wf. assumption.
     Qed.
 
-    Lemma leaf_ok t skip e : cexpr_wf e -> vres_ok (leaf_cands empties vals p rec t skip e).
+    Lemma leaf_ok t skip e : cexpr_wf e -> vres_ok (leaf_cands file empties vals fname refs p rec t skip e).
     Proof.
       intros Hw. unfold leaf_cands. apply ok_app; [apply ref_items_ok|]. apply ok_app; [apply fn_items_ok; exact Hw|].
       apply ok_app; [apply literal_type_ok; exact Hw|apply index_ok; exact Hw].
@@ -391,7 +399,7 @@ Section Reach.
         destruct params; [destruct varp; [exact Hmain|apply ok_nil]|exact Hmain].
     Qed.
 
-    Lemma non_complex_ok t skip e : cexpr_wf e -> vres_ok (non_complex_cands file empties vals funcs parens p rec t skip e).
+    Lemma non_complex_ok t skip e : cexpr_wf e -> vres_ok (non_complex_cands file empties vals funcs parens fname refs p rec t skip e).
     Proof.
       intros Hw. destruct e as [|x]; cbn [non_complex_cands]; [apply leaf_ok; exact I|].
       pose proof (leaf_ok t skip (CExpr x) Hw) as Hleaf.
@@ -420,7 +428,7 @@ Section Reach.
             apply ok_app; [apply Hrec; apply norm_wf; auto|exact Hleaf].
     Qed.
 
-    Lemma any_ok t skip e : cexpr_wf e -> vres_ok (any_cands file empties vals funcs parens p rec t skip e).
+    Lemma any_ok t skip e : cexpr_wf e -> vres_ok (any_cands file empties vals funcs parens fname refs p rec t skip e).
     Proof.
       intros Hw. unfold any_cands. destruct skip; [apply non_complex_ok; exact Hw|].
       destruct e as [|x]; [apply non_complex_ok; exact Hw|].
@@ -428,7 +436,7 @@ Section Reach.
       destruct t; try exact Hnc; destruct (se_node x); try exact Hnc; try (apply Hrec; exact Hw).
     Qed.
 
-    Lemma step_ok c e : cexpr_wf e -> vres_ok (step_cands prefill file opens empties vals funcs parens p rec rec_td c e).
+    Lemma step_ok c e : cexpr_wf e -> vres_ok (step_cands prefill file opens empties vals funcs parens fname refs p rec rec_td c e).
     Proof.
       intros Hw. destruct c; cbn [step_cands].
       - apply any_ok; exact Hw.
@@ -546,7 +554,7 @@ Section Reach.
   Qed.
 
   (* every candidate and every place reserved for reference / function candidates reaches the cursor *)
-  Theorem value_cands_reach_cursor fuel : forall c e, cexpr_wf e -> vres_ok (value_cands prefill file opens empties vals funcs parens cparens p fuel c e).
+  Theorem value_cands_reach_cursor fuel : forall c e, cexpr_wf e -> vres_ok (value_cands prefill file opens empties vals funcs parens cparens fname refs p fuel c e).
   Proof.
     induction fuel as [|n IH]; intros c e Hw; cbn [value_cands]; [apply ok_none|].
     apply step_ok; [exact IH|apply type_cands_ok|exact Hw].
@@ -576,6 +584,8 @@ Section Keywords.
   Variable funcs : fsigs.
   Variable parens : range_table.
   Variable cparens : paren_table.
+  Variable fname : string.
+  Variable refs : string -> ty -> string -> range -> option (list string).
   Variable p : pos.
 
   Definition kw_item (c : constraint) (i : vitem) : Prop :=
@@ -822,11 +832,17 @@ Section Keywords.
           * apply kw_ret, kw_other, attrs_to_cands_other.
     Qed.
 
-    Lemma ref_items_kw c e : vres_kw c (ref_items p e).
+    Lemma ref_cands_other sc0 t0 prefix org flt : Forall other_kind (ref_cands refs sc0 t0 prefix org flt).
     Proof.
-      destruct e as [|x]; cbn [ref_items]; [apply one_other; unfold other_kind; cbn; unfold kReference, kKeyword; discriminate|].
-      destruct (se_node x); try apply kw_nil; try apply kw_skip.
-      apply one_other; unfold other_kind; cbn; unfold kReference, kKeyword; discriminate.
+      unfold ref_cands. destruct (refs sc0 t0 prefix org) as [labels|].
+      - apply Forall_forall. intros i Hi. apply in_map_iff in Hi as (l & <- & _). unfold other_kind; cbn; unfold kReference, kKeyword; discriminate.
+      - constructor; [unfold other_kind; cbn; unfold kReference, kKeyword; discriminate|constructor].
+    Qed.
+
+    Lemma ref_items_kw c sc0 t0 e : vres_kw c (ref_items file fname refs p sc0 t0 e).
+    Proof.
+      destruct e as [|x]; cbn [ref_items]; [apply kw_ret, kw_other, ref_cands_other|].
+      destruct (se_node x); try apply kw_nil; try apply kw_skip. apply kw_ret, kw_other, ref_cands_other.
     Qed.
 
     Lemma fn_items_kw c e : vres_kw c (fn_items p e).
@@ -843,7 +859,7 @@ Section Keywords.
       destruct (rev steps) as [|[| | | |] [|]]; try apply kw_nil. apply rec_any.
     Qed.
 
-    Lemma leaf_kw c t skip e : vres_kw c (leaf_cands empties vals p rec t skip e).
+    Lemma leaf_kw c t skip e : vres_kw c (leaf_cands file empties vals fname refs p rec t skip e).
     Proof.
       unfold leaf_cands. apply kw_app; [apply ref_items_kw|]. apply kw_app; [apply fn_items_kw|].
       apply kw_app; [apply literal_type_kw|apply index_kw].
@@ -859,7 +875,7 @@ Section Keywords.
                    | match goal with |- vres_kw _ (let '(_, _) := ?y in _) => destruct y end ].
     Qed.
 
-    Lemma non_complex_kw c t skip e : vres_kw c (non_complex_cands file empties vals funcs parens p rec t skip e).
+    Lemma non_complex_kw c t skip e : vres_kw c (non_complex_cands file empties vals funcs parens fname refs p rec t skip e).
     Proof.
       destruct e as [|x]; cbn [non_complex_cands]; [apply leaf_kw|].
       pose proof (leaf_kw c t skip (CExpr x)) as Hleaf.
@@ -870,7 +886,7 @@ Section Keywords.
                      | match goal with |- vres_kw _ (if ?b then _ else _) => destruct b end ].
     Qed.
 
-    Lemma any_kw c t skip e : vres_kw c (any_cands file empties vals funcs parens p rec t skip e).
+    Lemma any_kw c t skip e : vres_kw c (any_cands file empties vals funcs parens fname refs p rec t skip e).
     Proof.
       unfold any_cands. destruct skip; [apply non_complex_kw|]. destruct e as [|x]; [apply non_complex_kw|].
       pose proof (non_complex_kw c t false (CExpr x)) as Hnc.
@@ -882,7 +898,7 @@ Section Keywords.
         match goal with Hk : has_kw (as_cons _) _ |- _ => cbn in Hk; eapply no_kw_lit; exact Hk end.
     Qed.
 
-    Lemma step_kw c e : vres_kw c (step_cands prefill file opens empties vals funcs parens p rec rec_td c e).
+    Lemma step_kw c e : vres_kw c (step_cands prefill file opens empties vals funcs parens fname refs p rec rec_td c e).
     Proof.
       destruct c; cbn [step_cands].
       - apply any_kw.
@@ -950,7 +966,7 @@ Section Keywords.
     induction fuel as [|n IH]; intros c e; cbn [type_cands]; [apply kw_none|]. apply type_decl_kw. exact IH.
   Qed.
 
-  Theorem value_cands_keywords_admitted fuel : forall c e, vres_kw c (value_cands prefill file opens empties vals funcs parens cparens p fuel c e).
+  Theorem value_cands_keywords_admitted fuel : forall c e, vres_kw c (value_cands prefill file opens empties vals funcs parens cparens fname refs p fuel c e).
   Proof.
     induction fuel as [|n IH]; intros c e; cbn [value_cands]; [apply kw_none|]. apply step_kw; [exact IH|intros c' e'; apply type_cands_kw].
   Qed.
@@ -1057,6 +1073,8 @@ Section NoInternalFailure.
   Variable funcs : fsigs.
   Variable parens : range_table.
   Variable cparens : paren_table.
+  Variable fname : string.
+  Variable refs : string -> ty -> string -> range -> option (list string).
   Variable p : pos.
 
   Lemma nn_ret l : vret l <> None. Proof. discriminate. Qed.
@@ -1149,33 +1167,33 @@ Section NoInternalFailure.
         pose proof (object_items_nn f g h i) as Hm; destruct (object_items a b c0 d e0 f g h i); [exact Hm|nn] end.
     Qed.
 
-    Lemma ref_items_nn e : ref_items p e <> None.
+    Lemma ref_items_nn sc0 t0 e : ref_items file fname refs p sc0 t0 e <> None.
     Proof. destruct e as [|x]; cbn [ref_items]; nn. Qed.
     Lemma fn_items_nn e : fn_items p e <> None.
     Proof. destruct e as [|x]; cbn [fn_items]; nn. Qed.
     Lemma index_nn e : index_cands empties rec e <> None.
     Proof. destruct e as [|x]; cbn [index_cands]; nn. Qed.
-    Lemma leaf_nn t skip e : leaf_cands empties vals p rec t skip e <> None.
+    Lemma leaf_nn t skip e : leaf_cands file empties vals fname refs p rec t skip e <> None.
     Proof. unfold leaf_cands. apply nn_app; [apply ref_items_nn|]. apply nn_app; [apply fn_items_nn|]. apply nn_app; [apply literal_type_nn|apply index_nn]. Qed.
 
     Lemma call_nn x : call_cands file empties funcs parens p rec x <> None.
     Proof. unfold call_cands. nn. Qed.
 
-    Lemma non_complex_nn t skip e : non_complex_cands file empties vals funcs parens p rec t skip e <> None.
+    Lemma non_complex_nn t skip e : non_complex_cands file empties vals funcs parens fname refs p rec t skip e <> None.
     Proof.
       destruct e as [|x]; cbn [non_complex_cands]; [apply leaf_nn|].
       pose proof (leaf_nn t skip (CExpr x)) as Hleaf. pose proof (call_nn x) as Hcall.
       destruct (se_node x); try exact Hleaf; try exact Hcall; nn.
     Qed.
 
-    Lemma any_nn t skip e : any_cands file empties vals funcs parens p rec t skip e <> None.
+    Lemma any_nn t skip e : any_cands file empties vals funcs parens fname refs p rec t skip e <> None.
     Proof.
       unfold any_cands. destruct skip; [apply non_complex_nn|]. destruct e as [|x]; [apply non_complex_nn|].
       pose proof (non_complex_nn t false (CExpr x)) as Hnc.
       destruct t; try exact Hnc; destruct (se_node x); try exact Hnc; try apply Hrec.
     Qed.
 
-    Lemma step_nn c e : step_cands prefill file opens empties vals funcs parens p rec rec_td c e <> None.
+    Lemma step_nn c e : step_cands prefill file opens empties vals funcs parens fname refs p rec rec_td c e <> None.
     Proof.
       destruct c; cbn [step_cands].
       - apply any_nn. - apply literal_type_nn. - apply literal_value_nn. - apply keyword_nn.
@@ -1229,8 +1247,8 @@ Section NoInternalFailure.
   Proof. intros H e. cbn [type_cands]. apply type_decl_nn. exact H. Qed.
 
   Theorem value_cands_no_internal_failure n :
-    (forall c' e', value_cands prefill file opens empties vals funcs parens cparens p n c' e' <> None) ->
+    (forall c' e', value_cands prefill file opens empties vals funcs parens cparens fname refs p n c' e' <> None) ->
     (forall e', type_cands file opens empties cparens p n e' <> None) ->
-    forall c e, value_cands prefill file opens empties vals funcs parens cparens p (S n) c e <> None.
+    forall c e, value_cands prefill file opens empties vals funcs parens cparens fname refs p (S n) c e <> None.
   Proof. intros H Ht c e. cbn [value_cands]. apply step_nn; [exact H|exact Ht]. Qed.
 End NoInternalFailure.
